@@ -6,7 +6,6 @@ package exe
 // worlds, in the encodings Exe/ExecDecode.v reads.
 
 import (
-	"sort"
 
 	"github.com/ccbrown/api-fu/graphql"
 	"github.com/ccbrown/api-fu/graphql/ast"
@@ -16,14 +15,14 @@ import (
 )
 
 // Input is one generated request: schema description, document text, operation name, raw variable
-// values and the coerced boolean variables the generator intends.
+// values; for the argument family the outcome table generator.
 type Input struct {
 	Schema *schemaDef
 	Text   string
 	OpName string
 	Vars   map[string]interface{}
-	Env    map[string]*bool
 	PFail  int
+	table  func(r *rng.R) *outcome
 }
 
 // Generate draws a schema, a document (valid by construction, or with selections validation
@@ -32,7 +31,16 @@ func Generate(r *rng.R, hostile bool) *Input {
 	s := genSchema(r)
 	d := genDocument(r, s, hostile)
 	pFail := rng.Pick(r, []int{0, 3, 8, 8, 15, 15, 25, 40})
-	return &Input{Schema: s, Text: d.text, OpName: d.opName, Vars: d.vars, Env: d.env, PFail: pFail}
+	return &Input{Schema: s, Text: d.text, OpName: d.opName, Vars: d.vars, PFail: pFail}
+}
+
+// GenerateArgs draws a request of c01's argument family: fields with arguments (defaults, required,
+// lists), typed variables, raw variable values of the right and of the wrong kind.
+func GenerateArgs(r *rng.R) *Input {
+	s, docs, tbl := argFamilyParts()
+	d := docs[r.Intn(len(docs))]
+	vars := d.vars[r.Intn(len(d.vars))]
+	return &Input{Schema: s, Text: d.text, Vars: vars, table: tbl}
 }
 
 // Build makes the real schema whose resolvers answer from the outcome tree handed to Execute as
@@ -76,23 +84,8 @@ func (in *Input) Vocabulary() []string {
 	return out
 }
 
-// EnvSexp encodes coerced boolean variables (nil: an explicit null).
-func EnvSexp(env map[string]*bool) sexp.Node {
-	var envL []sexp.Node
-	var vn []string
-	for v := range env {
-		vn = append(vn, v)
-	}
-	sort.Strings(vn)
-	for _, v := range vn {
-		if b := env[v]; b == nil {
-			envL = append(envL, sexp.L(sexp.Str(v), sexp.Sym("null")))
-		} else {
-			envL = append(envL, sexp.L(sexp.Str(v), sexp.Bool(*b)))
-		}
-	}
-	return sexp.L(envL...)
-}
+// VarsSexp encodes raw variable values (Request.VariableValues) as Val/Values.v jval.
+func VarsSexp(vars map[string]interface{}) sexp.Node { return varsSexp(vars) }
 
 // World is a resolver-outcome tree.
 type World struct{ o *outcome }
@@ -103,6 +96,9 @@ func (w *World) Value() interface{} { return w.o.value() }
 // NewWorld draws the outcome tree for the operation of doc that opName selects (the first one
 // when none does), the way c01 does after parsing.
 func (in *Input) NewWorld(r *rng.R, doc *ast.Document) *World {
+	if in.table != nil {
+		return &World{in.table(r)}
+	}
 	p := docSexp(doc, in.OpName)
 	g := &wGen{s: in.Schema, r: r, pFail: in.PFail, frags: p.frags}
 	root := in.Schema.query
